@@ -34,7 +34,8 @@ REQUIRED = ["programs", "steps_checked", "timed_resumes", "select_timeouts",
             "select_ready", "wakes", "subtask_returns", "subtask_raises",
             "tasks_raised", "timer_fires", "timers_cancelled", "quiescent_checks",
             "programs_natural_drive", "natural_select_timeouts",
-            "nested_subtask_returns", "nested_subtask_raises"]
+            "nested_subtask_returns", "nested_subtask_raises",
+            "late_started_timers", "absolute_timers"]
 TIMEOUT = {"quick": 1200, "thorough": 9000}
 
 _st = {}
@@ -293,8 +294,24 @@ def run_program (case, rep):
       rep.count("timer_fires")
       if spec.get("stop_after") and len(fires) >= spec["stop_after"]:
         return False
-    t = rc.Timer(spec["interval"], cb, recurring=spec["recurring"],
-                 scheduler=sched)
+    if spec.get("absolute"):
+      # fire at a wall-clock instant (one-shot only)
+      t = rc.Timer(clock.now + spec["interval"], cb, absoluteTime=True,
+                   scheduler=sched)
+      rep.count("absolute_timers")
+    elif spec.get("start_delay") is not None:
+      # created idle, started later: the interval counts from start()
+      t = rc.Timer(spec["interval"], cb, recurring=spec["recurring"],
+                   scheduler=sched, started=False)
+      def go ():
+        tm["created"] = clock.now
+        t.start(sched)
+        rep.count("late_started_timers")
+      tm["created"] = clock.now + spec["start_delay"]
+      externals.append((clock.now + spec["start_delay"], go))
+    else:
+      t = rc.Timer(spec["interval"], cb, recurring=spec["recurring"],
+                   scheduler=sched)
     tm["timer"] = t
     if spec.get("cancel_at") is not None:
       def cancel ():
@@ -514,7 +531,10 @@ def gen_random (rng, n):
     for _ in range(rng.choice([0, 0, 1, 2])):
       rec = rng.random() < 0.6
       sp = dict(interval=rng.choice([0.5, 1, 3, 7.5]), recurring=rec)
-      if rng.random() < 0.4: sp["cancel_at"] = rng.choice([0.25, 2, 10, 20.25])
+      r = rng.random()
+      if r < 0.4: sp["cancel_at"] = rng.choice([0.25, 2, 10, 20.25])
+      elif r < 0.6: sp["start_delay"] = rng.choice([0.5, 2, 5, 11])
+      elif r < 0.7 and not rec: sp["absolute"] = True
       if rec and rng.random() < 0.3: sp["stop_after"] = rng.randrange(1, 5)
       timers.append(sp)
     # a task that blocks on a wake which arrives only after another task died
